@@ -159,7 +159,9 @@ Proof. exact async_shield. Qed.
 Print Assumptions C17_async_shield.
 
 (* asyncio, exceptions: the machine's on_exception callbacks run for the model, with the first failing
-   on_timeout callback, iff one failed — each exactly once. *)
+   on_timeout callback, iff one failed — each exactly once.  [oc_raise] stands for a failure of ANY kind
+   (Exception, another BaseException, asyncio.CancelledError raised by awaiting a cancelled task): the
+   correspondence check raises all three. *)
 Theorem C17_async_exception : forall (b : bool) (c : tcfg) (w : world) (i : nat) (tm : timer),
   tc_async c = true -> Inv b w -> pend w i tm -> ids_positive c (tm_state tm) = true ->
   filter is_user_onexc (fst (fire c w i tm)) =
